@@ -169,10 +169,21 @@ def check_uq_interp_forms(run):
     th = '(acos(dot) * s)'
     want = nm.poly(parse_expr('(q1 * (cos({th}) - dot * sin({th}) / sin({t0}))) + (q2 * (sin({th}) / sin({t0})))'.format(th=th, t0=t0)))
     ok = False
+    # the weighted sum: the value bound to `out`, or -- when it is not named -- the sum of the two scaled quaternions handed to append()
+    cands = []
     for st in own_walk(f.node):
         if isinstance(st, ast.Assign) and isinstance(st.targets[0], ast.Name) and st.targets[0].id == 'out':
+            cands.append((st, st.value))
+    if not cands:
+        for c_ in own_walk(f.node):
+            if isinstance(c_, ast.Call) and isinstance(c_.func, ast.Attribute) and c_.func.attr == 'append' and len(c_.args) == 1 and \
+                    isinstance(c_.args[0], ast.BinOp) and isinstance(c_.args[0].op, ast.Add) and \
+                    {'q1', 'q2'} <= {y.id for y in ast.walk(c_.args[0]) if isinstance(y, ast.Name)}:
+                cands.append((c_, c_.args[0]))
+    for (st, val) in cands:
+        if True:
             try:
-                g = nm.poly(canon(cx.fi, st.value))
+                g = nm.poly(canon(cx.fi, val))
             except Unrecognised:
                 g = None
             if g == want:
